@@ -496,6 +496,28 @@ def template_of(body, op):
     return None
 
 
+def template_of_s(sup, node, op):
+    """Like template_of, for an operand read at `node` of a supergraph: the fmt::Arguments may have been
+    built by a caller and passed down (a diverging `fail(args: fmt::Arguments) -> !` helper).
+    Returns (kind, text, origin_node, origin_term) or None."""
+    tr = strace(sup, node, op)
+    if tr.origin and tr.origin[0] == "call":
+        t = tr.origin[2]
+        f = fn_of(t)
+        if f and "fmt::Arguments" in f["def"]:
+            onode = (tr.origin_node[0], tr.origin[1])
+            a0 = t["args"][0] if t["args"] else None
+            if a0 is not None:
+                tr2 = strace(sup, onode, a0)
+                if tr2.origin and tr2.origin[0] == "const":
+                    c = tr2.origin[1]
+                    if f["name"] in ("from_str", "from_str_nonconst") and "str" in c:
+                        return ("str", c["str"], onode, t)
+                    if "bytes" in c:
+                        return ("tmpl", decode_template(c["bytes"]), onode, t)
+    return None
+
+
 def decode_template(bs, with_args=False):
     """Decode core::fmt's template byte sequence (see library/core/src/fmt/mod.rs of this toolchain):
     literal pieces are <len><bytes> (len < 0x80) or 0x80 <u16 le len> <bytes>; placeholders are a
